@@ -442,6 +442,7 @@ def run(prog, ctx):
         s = Sym(prog, f)
         loops = s.loops()
         sites = []
+        composite_helper = False
         for b, site in f.calls():
             cal = site.get("callee") or ""
             nm = cal.rsplit("::", 1)[-1]
@@ -451,6 +452,14 @@ def run(prog, ctx):
             args = [s.at(b, "t").operand(a) for a in site["args"]]
             if not any(any(y[0] == "param" and y[1] == 2 for y in sym.walk(a)) for a in args):
                 continue
+            if g is not None and g.owner == ty and g.id not in prog.fns.get(f.id, f).id:
+                # a helper of the hasher that itself splits / copies / loops over what it is given is not a block routine: what it
+                # consumes cannot be read off its arguments here
+                inner = [(st_.get("callee") or "").rsplit("::", 1)[-1] for _b, st_ in g.calls()]
+                if Sym(prog, g).loops() or any(x in ("copy_from_slice", "split_at", "chunks_exact", "chunks", "split_at_checked") for x in inner) or any(
+                        (st_.get("callee") in prog.fns and prog.fns[st_["callee"]].owner == ty) for _b, st_ in g.calls()):
+                    composite_helper = True
+                    continue
             inl = [(h, body) for h, body in loops if b in body]
             itx = None
             if inl:
@@ -489,7 +498,7 @@ def run(prog, ctx):
                 return pred
             sites.append((b, nm, args, itx, bool(inl), mk_pred(b)))
         n_c += 1
-        verdict, wit, complete = True, "", True
+        verdict, wit, complete = True, "", not composite_helper
         try:
             for b0 in range(block):
                 for ln in (0, 1, block - b0 - 1, block - b0, block - b0 + 1, block, 2 * block - b0, 2 * block + 3, 3 * block + block // 2):
